@@ -1,5 +1,5 @@
 (* C19: every RPC completes exactly once with the response that carries its own id.
-   Statements about C19_Model (muduo::net::RpcChannel, RpcChannel.cc of the pinned tree).
+   Statements about C19_Model (muduo::net::RpcChannel, RpcChannel.cc of the current tree).
 
    Quantification.  [ls : list label] is an arbitrary history: any number of calling threads,
    each running any number of CallMethod invocations cut into their micro-steps
@@ -7,19 +7,50 @@
    environment delivers: RESPONSE frames in any order, duplicated, omitted, with foreign ids,
    with payloads protobuf rejects, with error codes; REQUEST frames of every kind; the service's
    (user code's) calls of the done callbacks.  [exec (init svcs) ls = Some (s', tr)] says that the
-   history is one the model can take: program order per thread is respected and the two stated
-   preconditions hold (a RESPONSE carries a response or an error: assert at RpcChannel.cc:89;
-   a one-shot done callback is not run twice).  [tr] records, per step, what the step did.
+   history is one the model accepts: program order per thread is respected and the three stated
+   preconditions hold.  C19_rejected_iff lists the rejected labels EXACTLY:
+     - a CallMethod whose caller passes response == NULL ([in_contract c = false]): a documented
+       precondition of google::protobuf::RpcChannel::CallMethod (the response object's descriptor
+       must be method->output_type()); "each call" of the property = each well-formed call;
+     - a RESPONSE frame with neither a response nor an error (assert at RpcChannel.cc:89);
+     - a one-shot done callback run a second time, or one that was never created.
+   [tr] records, per step, what the step did.
 
    Tags.  [c_tag] is the identity of one CallMethod invocation, i.e. of the closure object the
    caller passed.  [NoDup (fetch_tags ls)] says that no closure object is passed twice
-   (google::protobuf::Closure made by NewCallback is one-shot); it is the only caller-side
+   (google::protobuf::Closure made by NewCallback is one-shot); it is the only further caller-side
    hypothesis. *)
 From Coq Require Import List ZArith Bool Arith.
 From Coq.Strings Require Import Byte.
-From Muduo Require Import Base_Bytes C19_Model C19_Proofs.
+From Muduo Require Import Base_Bytes Gen_C19 C19_Model C19_Proofs C19_GenLink.
 Import ListNotations.
 Local Open Scope Z_scope.
+
+(* Which labels the model rejects, exactly (so that "exec ... = Some" hides nothing). *)
+Theorem C19_rejected_iff :
+  forall s l,
+    step s l = None <->
+    match l with
+    | LFetch t c => tget t (threads s) <> TIdle \/ in_contract c = false
+    | LRegister t => forall i c, tget t (threads s) <> TFetched i c
+    | LSend t => forall i c, tget t (threads s) <> TRegistered i c
+    | LResponse i b => ~ body_ok b
+    | LDone k m => nlookup k (pending s) = None
+    | LRequest _ => False
+    | LOther _ => False
+    end.
+Proof. exact rejected_iff. Qed.
+Print Assumptions C19_rejected_iff.
+
+(* The precondition by name: every call of an accepted history was made with a response object,
+   and so is every call that is registered. *)
+Theorem C19_calls_in_contract :
+  forall svcs ls s tr,
+    exec (init svcs) ls = Some (s, tr) ->
+    (forall t c, In (LFetch t c) ls -> in_contract c = true) /\
+    (forall i c, lookup i (outs s) = Some c -> in_contract c = true).
+Proof. exact calls_in_contract. Qed.
+Print Assumptions C19_calls_in_contract.
 
 (* Call ids are unique: whatever the interleaving of the callers (any number of threads), the ids
    handed out by id_.incrementAndGet() are pairwise distinct (and are 1..next_id). *)
@@ -28,10 +59,20 @@ Theorem C19_ids_unique :
     exec (init svcs) ls = Some (s', tr) ->
     NoDup (fetched_ids (events tr)) /\
     forall i, In i (fetched_ids (events tr)) -> 0 < i <= next_id s'.
-Proof.
-  intros svcs ls s' tr H. destruct (exec_ids _ _ _ _ H) as (_ & Hin & Hnd). split; [exact Hnd|exact Hin].
-Qed.
+Proof. exact ids_unique. Qed.
 Print Assumptions C19_ids_unique.
+
+(* The REQUEST frame of a call carries the id fetched for it, and when it is handed to the
+   connection the call has already been registered under that id (so a correct peer cannot answer
+   too early): it is still outstanding, or a response with that id has consumed it meanwhile. *)
+Theorem C19_registered_before_sent :
+  forall svcs l1 t s1 tr1 s2 ev,
+    exec (init svcs) l1 = Some (s1, tr1) -> step s1 (LSend t) = Some (s2, ev) ->
+    exists i c, ev = [ESendRequest i (c_svc c) (c_meth c) (c_req c)] /\
+      In (EFetch t i (c_tag c)) (events tr1) /\ In (ERegister t i (c_tag c)) (events tr1) /\
+      (lookup i (outs s1) = Some c \/ exists b, In (LResponse i b) l1).
+Proof. exact registered_before_sent. Qed.
+Print Assumptions C19_registered_before_sent.
 
 (* No closure runs twice, in any history (duplicated responses included). *)
 Theorem C19_closure_at_most_once :
@@ -41,6 +82,15 @@ Theorem C19_closure_at_most_once :
     (count_occ Nat.eq_dec (run_tags (events tr)) c <= 1)%nat.
 Proof. exact closure_at_most_once. Qed.
 Print Assumptions C19_closure_at_most_once.
+
+(* ... and no response object is deleted twice. *)
+Theorem C19_response_deleted_at_most_once :
+  forall svcs ls s' tr c,
+    exec (init svcs) ls = Some (s', tr) ->
+    NoDup (fetch_tags ls) ->
+    (count_occ Nat.eq_dec (del_tags (events tr)) c <= 1)%nat.
+Proof. exact response_deleted_at_most_once. Qed.
+Print Assumptions C19_response_deleted_at_most_once.
 
 (* The closure of call c runs only inside the step that handles a RESPONSE whose id is the id
    fetched for c (and that id is the only one ever fetched for c); what it finds in its response
@@ -57,74 +107,41 @@ Theorem C19_closure_gets_own_id :
 Proof. exact closure_gets_own_id. Qed.
 Print Assumptions C19_closure_gets_own_id.
 
-(* Full statement (property text): if a response with c's id is delivered after c was registered,
-   c's closure has run exactly once.
-     forall ..., exec (init svcs) l1 = Some (s1, tr1) -> lookup i (outs s1) = Some c ->
-                 exec (init svcs) (l1 ++ l2) = Some (s', tr) -> (exists b, In (LResponse i b) l2) ->
-                 NoDup (fetch_tags (l1 ++ l2)) -> c_done c = true ->
-                 count_occ Nat.eq_dec (run_tags (events tr)) (c_tag c) = 1
-   The pinned code falsifies it for a call made with response == NULL (C19_once_if_answered_refuted);
-   proved here with the missing hypothesis [c_resp c = true] (the caller passed a response object). *)
-Theorem C19_once_if_answered_partial :
+(* If a response with c's id is delivered after c was registered, c's closure has run exactly
+   once (and c's response object has been deleted exactly once).  Full strength: the only
+   hypothesis on c is that it has a closure at all. *)
+Theorem C19_once_if_answered :
   forall svcs l1 l2 s1 tr1 s' tr i c,
     exec (init svcs) l1 = Some (s1, tr1) ->
     lookup i (outs s1) = Some c ->                       (* c is registered under i after l1 ... *)
     exec (init svcs) (l1 ++ l2) = Some (s', tr) ->
     (exists b, In (LResponse i b) l2) ->                 (* ... and a response with id i arrives later *)
     NoDup (fetch_tags (l1 ++ l2)) ->
-    c_resp c = true -> c_done c = true ->
-    count_occ Nat.eq_dec (run_tags (events tr)) (c_tag c) = 1%nat.
-Proof. exact once_if_answered. Qed.
-Print Assumptions C19_once_if_answered_partial.
-
-(* Witness (finding F-C19-1): CallMethod(method, NULL, &request, NULL, done); the peer answers.
-   RpcChannel.cc:103 guards BOTH the parse and done->Run() by `if (out.response)`: the entry is
-   erased, the closure is neither run nor deleted. *)
-Definition c19_witness_call : call := mkCall 1%nat false true [] [] [].
-Definition c19_witness_l1 : list label := call_labels 0%nat c19_witness_call.
-Definition c19_witness_l2 : list label := [LResponse 1 (mkBody (Some (Valid [])) None)].
-
-Theorem C19_once_if_answered_refuted :
-  exists svcs l1 l2 s1 tr1 s' tr i c,
-    exec (init svcs) l1 = Some (s1, tr1) /\
-    lookup i (outs s1) = Some c /\
-    exec (init svcs) (l1 ++ l2) = Some (s', tr) /\
-    (exists b, In (LResponse i b) l2) /\
-    NoDup (fetch_tags (l1 ++ l2)) /\
-    c_done c = true /\
-    count_occ Nat.eq_dec (run_tags (events tr)) (c_tag c) = 0%nat /\
-    In (ELeak (c_tag c)) (events tr).
-Proof.
-  exists None, c19_witness_l1, c19_witness_l2.
-  eexists. eexists. eexists. eexists. exists 1, c19_witness_call.
-  split; [vm_compute; reflexivity|].
-  split; [vm_compute; reflexivity|].
-  split; [vm_compute; reflexivity|].
-  split; [eexists; left; reflexivity|].
-  split; [vm_compute; constructor; [intros []|constructor]|].
-  split; [reflexivity|].
-  split; [vm_compute; reflexivity|].
-  vm_compute. auto 10.
-Qed.
-Print Assumptions C19_once_if_answered_refuted.
+    (c_done c = true -> count_occ Nat.eq_dec (run_tags (events tr)) (c_tag c) = 1%nat) /\
+    count_occ Nat.eq_dec (del_tags (events tr)) (c_tag c) = 1%nat.
+Proof. exact once_if_answered_full. Qed.
+Print Assumptions C19_once_if_answered.
 
 (* A response with an unknown id is ignored: the step is the identity on the whole state and does
-   nothing.  The same holds for an id that was registered and has been consumed by an earlier
-   response, whatever happened in between. *)
+   nothing.  An id that nobody fetched is unknown in every reachable state; so is an id that was
+   registered and has been consumed by an earlier response, whatever happened in between. *)
 Theorem C19_unknown_or_consumed_ignored :
   (forall s i b, lookup i (outs s) = None -> body_ok b -> step s (LResponse i b) = Some (s, [])) /\
+  (forall svcs ls s tr i,
+      exec (init svcs) ls = Some (s, tr) -> ~ In i (fetched_ids (events tr)) -> lookup i (outs s) = None) /\
   (forall svcs l1 s1 tr1 i c b1 l2 s2 tr2 b2,
       exec (init svcs) l1 = Some (s1, tr1) -> lookup i (outs s1) = Some c ->
       exec s1 (LResponse i b1 :: l2) = Some (s2, tr2) -> body_ok b2 ->
       step s2 (LResponse i b2) = Some (s2, [])).
-Proof. exact unknown_or_consumed_ignored. Qed.
+Proof. exact unknown_or_consumed_ignored_full. Qed.
 Print Assumptions C19_unknown_or_consumed_ignored.
 
 (* Serving side.  Every REQUEST step either sends exactly one RESPONSE with the request's id and
    NO_SERVICE / NO_METHOD / INVALID_REQUEST, or hands the parsed request to the service together
    with a done callback whose token is fresh; running callback k sends exactly one RESPONSE: the
    service's reply, with the id of the request that created k; no callback runs twice; nothing
-   else sends a RESPONSE.  (A service that never runs its callback sends nothing: user code.) *)
+   else sends a RESPONSE; a callback is only ever created by a REQUEST, for that request's id.
+   (A service that never runs its callback sends nothing: user code.) *)
 Theorem C19_server_one_reply :
   forall svcs ls s' tr,
     exec (init svcs) ls = Some (s', tr) ->
@@ -136,9 +153,53 @@ Theorem C19_server_one_reply :
     (forall k m ev, In (LDone k m, ev) tr ->
        exists i svc meth q, In (EDispatch k i svc meth q) (events tr) /\ ev = [ESendResponse i (RReply m)]) /\
     NoDup (done_toks ls) /\
-    (forall l ev i r, In (l, ev) tr -> In (ESendResponse i r) ev -> replies_label l = true).
-Proof. exact server_one_reply. Qed.
+    (forall l ev i r, In (l, ev) tr -> In (ESendResponse i r) ev -> replies_label l = true) /\
+    (forall l ev k i svc meth q, In (l, ev) tr -> In (EDispatch k i svc meth q) ev ->
+       exists rq, l = LRequest rq /\ i = rq_id rq /\ svc = rq_svc rq /\ meth = rq_meth rq /\ resolve svcs rq = inr q).
+Proof. exact server_one_reply_full. Qed.
 Print Assumptions C19_server_one_reply.
+
+(* Which error for which request: NO_SERVICE iff the channel has no service table or the service
+   name is not in it; NO_METHOD iff the service is known and the method is not; INVALID_REQUEST
+   iff both are known and protobuf rejects the payload; otherwise the parsed request is dispatched. *)
+Theorem C19_server_error_code :
+  forall svcs r,
+    match resolve svcs r with
+    | inl NO_SERVICE => svcs = None \/ exists m, svcs = Some m /\ find_service (rq_svc r) m = None
+    | inl NO_METHOD => exists m ms, svcs = Some m /\ find_service (rq_svc r) m = Some ms /\ has_method (rq_meth r) ms = false
+    | inl INVALID_REQUEST => exists m ms, svcs = Some m /\ find_service (rq_svc r) m = Some ms /\
+                                          has_method (rq_meth r) ms = true /\ parse (rq_req r) = None
+    | inl _ => False
+    | inr q => exists m ms, svcs = Some m /\ find_service (rq_svc r) m = Some ms /\
+                            has_method (rq_meth r) ms = true /\ parse (rq_req r) = Some q
+    end.
+Proof. exact resolve_cases. Qed.
+Print Assumptions C19_server_error_code.
+
+(* The tie to the source by generated facts (coq/Gen_C19.v is regenerated from the current
+   RpcChannel.cc, Atomic.h and rpc.proto by lib/gen_C19.py on every check): the id is fetched by one
+   atomic read-modify-write and used as wire id and map key; the call is registered in a mutex
+   section before the send; the RESPONSE branch looks up the frame's id, takes and erases the entry
+   in one mutex section and then parses / runs / deletes exactly as [complete] says; the REQUEST
+   branch's if-tree computes [resolve] with the error numbers of rpc.proto, dispatching or replying
+   exactly once; error reply, done callback and its reply carry the request's id. *)
+Theorem C19_model_tied_to_source :
+  (CallMethod_id_fetch_atomic = true /\ (forall i, CallMethod_wire_id i = i) /\ (forall i, CallMethod_map_key i = i) /\
+   CallMethod_registers_caller_objects = true /\ CallMethod_register_locked_before_send = true) /\
+  ((forall i, Response_lookup_key i = i) /\ Response_section_locked = true /\
+   Response_found_takes_entry = true /\ Response_found_erases_entry = true) /\
+  (forall c b, Response_complete (c_resp c) (c_done c) (is_some (rb_resp b)) =
+               (if c_resp c && is_some (rb_resp b) then 1 else 0,
+                Z.of_nat (length (run_tags (complete c b))), Z.of_nat (length (del_tags (complete c b))))) /\
+  (forall svcs r, Request_branch (g_has_services svcs) (g_found_service svcs r) (g_found_method svcs r) (g_parsed r) =
+                  match resolve svcs r with inl e => (errnum e, 0, 1) | inr _ => (errnum NO_ERROR, 1, 0) end) /\
+  ((forall i, Request_error_reply_id i = i) /\ (forall i, Request_callback_id i = i) /\
+   (forall i, doneCallback_reply_id i = i) /\ doneCallback_sends = 1) /\
+  (errnum NO_ERROR = EC_NO_ERROR /\ errnum WRONG_PROTO = EC_WRONG_PROTO /\ errnum NO_SERVICE = EC_NO_SERVICE /\
+   errnum NO_METHOD = EC_NO_METHOD /\ errnum INVALID_REQUEST = EC_INVALID_REQUEST /\
+   errnum INVALID_RESPONSE = EC_INVALID_RESPONSE /\ errnum TIMEOUT = EC_TIMEOUT).
+Proof. exact model_tied_to_source. Qed.
+Print Assumptions C19_model_tied_to_source.
 
 (* ---- the hypotheses are inhabited by non-trivial histories ---- *)
 Definition ex_call (k : nat) : call := mkCall k true true [] [] [].
@@ -153,24 +214,31 @@ Definition ex_hist : list label :=
 Example C19_example_history :
   exists s tr, exec (init None) ex_hist = Some (s, tr) /\
                run_tags (events tr) = [2%nat; 1%nat] /\
+               del_tags (events tr) = [2%nat; 1%nat] /\
                fetched_ids (events tr) = [1; 2] /\
                outs s = [] /\
                NoDup (fetch_tags ex_hist).
 Proof.
   eexists. eexists. split; [vm_compute; reflexivity|].
-  split; [reflexivity|]. split; [reflexivity|]. split; [reflexivity|].
+  split; [reflexivity|]. split; [reflexivity|]. split; [reflexivity|]. split; [reflexivity|].
   vm_compute. constructor; [intros [E|[]]; discriminate|]. constructor; [intros []|constructor].
 Qed.
 
+(* the hypotheses of C19_once_if_answered: a call made in contract, registered, answered later *)
 Example C19_example_registered_then_answered :
   exists s1 tr1 c, exec (init None) (firstn 4 ex_hist) = Some (s1, tr1) /\
-                   lookup 1 (outs s1) = Some c /\ c_resp c = true /\ c_done c = true /\
+                   lookup 1 (outs s1) = Some c /\ in_contract c = true /\ c_done c = true /\
                    exists b, In (LResponse 1 b) (skipn 4 ex_hist).
 Proof.
   eexists. eexists. eexists. split; [vm_compute; reflexivity|].
   split; [vm_compute; reflexivity|]. split; [reflexivity|]. split; [reflexivity|].
   eexists. vm_compute. right. right. right. left. reflexivity.
 Qed.
+
+(* the hypotheses of C19_registered_before_sent: thread 2 is about to send *)
+Example C19_example_about_to_send :
+  exists s1 tr1 s2 ev, exec (init None) (firstn 4 ex_hist) = Some (s1, tr1) /\ step s1 (LSend 2%nat) = Some (s2, ev).
+Proof. eexists. eexists. eexists. eexists. split; vm_compute; reflexivity. Qed.
 
 Definition ex_svcs : option (list (name * list name)) := Some [([x53], [[x45]; [x44]])]%byte.
 Definition ex_server_hist : list label :=
@@ -193,3 +261,21 @@ Proof. eexists. eexists. split; [vm_compute; reflexivity|]. split; reflexivity. 
 Example C19_example_double_done_rejected :
   exec (init ex_svcs) [LRequest (mkReq 5 [x53] [x45] (Valid [])); LDone 0%nat []; LDone 0%nat []]%byte = None.
 Proof. vm_compute. reflexivity. Qed.
+
+(* ---- observation, outside the property: the out-of-contract call ----
+   CallMethod(method, NULL, &request, /*response=*/NULL, done) violates the precondition above; the
+   model rejects it.  [exec_code] is the machine without that guard, i.e. what RpcChannel.cc does
+   when it is handed the call all the same: `if (out.response)` (RpcChannel.cc:103) guards
+   done->Run() as well, so when the peer answers the entry is erased and the closure is neither
+   run nor deleted.  Recorded in docs/C19.md as an observation; not a finding. *)
+Definition obs_null_call : call := mkCall 1%nat false true [] [] [].
+Definition obs_null_hist : list label := call_labels 0%nat obs_null_call ++ [LResponse 1 (mkBody (Some (Valid [])) None)].
+
+Example C19_observation_null_response_out_of_contract :
+  exec (init None) obs_null_hist = None /\
+  exists s tr, exec_code (init None) obs_null_hist = Some (s, tr) /\
+               outs s = [] /\ run_tags (events tr) = [] /\ In (ELeak 1%nat) (events tr).
+Proof.
+  split; [vm_compute; reflexivity|]. eexists. eexists. split; [vm_compute; reflexivity|].
+  split; [reflexivity|]. split; [reflexivity|]. vm_compute. auto 10.
+Qed.
